@@ -203,8 +203,40 @@ void run_case(Tape& t, Stats& st) {
 	manager_case(L, t, st, subdirs);
 }
 
+// an archive with more members than a 16-bit index can count: lookups, streams and resolution through the manager for members on both sides of 65536
+void many_members(bool clm, Stats& st) {
+	const uint32_t N = 65600; std::string dir = "6500" + std::string(clm ? "1" : "0"); mkdir(dir.c_str(), 0700);
+	auto nameOf = [&](uint32_t i) { char b[16]; snprintf(b, sizeof b, clm ? "%08u" : "m%07u.bin", i); return std::string(b); };
+	auto dataOf = [&](uint32_t i) { return std::vector<uint8_t>{uint8_t(i), uint8_t(i >> 8), uint8_t(i >> 16), uint8_t(0xC0 + (i % 7))}; };
+	std::string ap = dir + (clm ? "/1.clm" : "/1.vol");
+	if (clm) { std::vector<refclm::Track> ts; for (uint32_t i = 0; i < N; ++i) ts.push_back({nameOf(i), dataOf(i)}); write_file(ap, refclm::encode({1, 1, 22050, 44100, 2, 16}, ts)); }
+	else { std::vector<refvol::Member> ms(N); for (uint32_t i = 0; i < N; ++i) { ms[i].name = nameOf(i); ms[i].payload = dataOf(i); ms[i].sizeField = 4; } write_file(ap, refvol::encode(ms)); }
+	{
+		std::unique_ptr<Archive::ArchiveFile> a; if (clm) a = std::make_unique<Archive::ClmFile>(ap); else a = std::make_unique<Archive::VolFile>(ap);
+		V_CHECK(a->GetCount() == N, "archive of " << N << " members opened with " << a->GetCount());
+		ResourceManager rm(dir);
+		for (uint32_t i : {0u, 1u, 255u, 256u, 32767u, 32768u, 65534u, 65535u, 65536u, 65537u, 65599u, 40000u}) {
+			std::string nm = nameOf(i), q = volgen::case_variant(nm, 0x2D);
+			V_CHECK(a->GetName(i) == nm, "GetName(" << i << ") of " << N);
+			V_CHECK(a->Contains(q) && a->GetIndex(q) == i, "GetIndex(" << jstr(q) << ") = " << (a->Contains(q) ? a->GetIndex(q) : size_t(-1)) << ", the member is at " << i << " of " << N);
+			{ auto s = a->OpenStream(i); V_CHECK(drain(*s) == dataOf(i), "stream of member " << i << " of " << N << " delivers other bytes"); }
+			{ auto s = a->OpenStream(q); V_CHECK(drain(*s) == dataOf(i), "stream by name of member " << i << " of " << N << " delivers other bytes"); }
+			std::string rq = clm ? q : "./" + q; auto s = rm.GetResourceStream(rq, true);
+			V_CHECK(s != nullptr, "GetResourceStream(" << jstr(rq) << ") returned nothing; member " << i << " of the loaded archive has that name");
+			V_CHECK(drain(*s) == dataOf(i), "GetResourceStream(" << jstr(rq) << ") returned other bytes than member " << i << " of " << N << " holds");
+			V_CHECK(rm.FindContainingArchivePath(rq) == XFile::Append(dir, clm ? "1.clm" : "1.vol"), "FindContainingArchivePath for member " << i << " of " << N);
+			V_CHECK(rm.GetResourceStream(rq, false) == nullptr, "member returned although archive access is off");
+		}
+		for (size_t bad : {size_t(N), size_t(N) + 1, size_t(65536) * 2}) V_CHECK(guarded([&] { a->OpenStream(bad); }) == Out::Err && guarded([&] { a->GetName(bad); }) == Out::Err, "index " << bad << " accepted by an archive of " << N << " members");
+		V_CHECK(rm.GetResourceStream(nameOf(N), true) == nullptr && !a->Contains(nameOf(N)), "a name beyond the last member was found");
+	}
+	remove(ap.c_str()); rmdir(dir.c_str());
+	st.cls(clm ? "many_members:clm" : "many_members:vol"); st.nt(hmix(N, clm) ^ 0x17AA);
+}
+
 void run_sweep(Stats& st) {
 	volgen::root();
+	for (unsigned k = 0; k < 2; ++k) if (sw("many_members", k)) many_members(k, st);
 	// directed layouts: every pool name loose vs in one archive vs in two archives, in every case variant of the query
 	std::vector<uint8_t> tp(256, 0);
 	for (size_t pi = 0; pi < poolN; ++pi) for (unsigned where = 0; where < 4; ++where) {
